@@ -139,7 +139,7 @@ pub fn behaviour() -> Behaviour {
         cfg,
         adjust,
         render,
-        quick: 1500,
+        quick: 4000,
         thorough: 20000,
         batch: 25,
         assumptions: &[],
